@@ -16,10 +16,15 @@ RULE = ("qmail-clean: every request stream over {f,o,p,/,1,NUL,x} and over {t,o,
         "stat failure / atime = now-OSSIFIED-1, now-OSSIFIED, now-OSSIFIED+1, 0, now, future x two clocks; the empty directory; failing opendir; NR/8 random "
         "sessions of 0..70 requests so that the sweeps of iterations 0, 31 and 62 run, each with its own listing of 0..6 entries); spawn.c with qmail-lspawn and with qmail-rspawn: every message id over {1,/,.,a,0xff,:} up to "
         "length %(LS)s x delivery numbers {0,1,119,120,121,255} x recipients x 9 open/fstat/pipe/fork outcomes, every child output over {r,h,s,K,Z,D,NUL,x} up to "
-        "length %(LS1)s with 6 wait statuses, every exit code and signal, %(NS)s random sessions (commands cut into arbitrary reads, truncated, oversized, re-used "
-        "delivery numbers, hostile/long child output, exits in any order); qmail-send del_dochan: every report stream over {0,1,2,3,4,K,Z,D,x,0xff} up to "
-        "length %(LD)s against a world with three deliveries in flight (one on a dying job) and against an idle channel, %(ND)s random worlds with reports "
-        "up to 25000 bytes; all run through the real code (ASan+UBSan build of the working tree, system calls scripted) and the Lean models, compared "
+        "length %(LS1)s with 6 wait statuses, every exit code and signal, after a first command every sequence of up to %(LS)s events over {second command, "
+        "EOF on descriptor 0, child 0/1 reaped while in select (select returns -1), EOF on the pipe of child 0/1, both in one wake-up, output of child 0} "
+        "(end of input with deliveries in flight, in every order relative to reap / report / the exit test of the main loop; the number of script events "
+        "consumed when the program calls _exit is compared with the model), %(NS)s random sessions (commands cut into arbitrary reads, truncated, oversized, re-used "
+        "delivery numbers, hostile/long child output, exits in any order, reaped first and reported later, descriptor 0 closed in the middle of a third of the sessions); "
+        "qmail-send del_dochan: every report stream over {0,1,2,3,4,K,Z,D,x,0xff} up to "
+        "length %(LD)s against a world with three deliveries in flight (one on a dying job) and against an idle channel, reports with text lengths REPORTMAX-14 .. REPORTMAX+10 "
+        "one by one and up to REPORTMAX+2110 in steps x letters K/D/Z x read() sizes 1, 2, 3, 7, 1023, 1024, 2047, 2048 and two random chunkings x four kinds of preceding bytes, "
+        "%(ND)s random worlds with reports up to 25000 bytes in fixed and random read() sizes; the oracle truncOK bounds the report text of every log line; all run through the real code (ASan+UBSan build of the working tree, system calls scripted) and the Lean models, compared "
         "on the full event trace (paths unlinked/opened, bytes written, log lines, final state); the oracle Nq.Spec.TB is evaluated on the implementation's "
         "trace; non-trivial = distinct input with a complete request of >= 7 bytes / a complete command / a NUL-terminated report")
 
@@ -91,9 +96,13 @@ def neighbourhood_cases(dis, seed):
                 b = bytes.fromhex("" if f["in"] == "-" else f["in"])
                 pre = "D %s %s %s %s" % (f["c"], f["jobs"], f["slots"], f["plan"])
                 cases.add("%s %s %s" % (pre, f.get("chunk", "0"), f["in"]))
-                for _ in range(300):
+                for _ in range(300 if len(b) < 2000 else 40):
                     m = mutate_bytes(rnd, b, b"\x00\x01\x02\x03\x04KZDx\xff\n")
-                    cases.add("%s %d %s" % (pre, rnd.choice([0, 1]), hx(m)))
+                    cases.add("%s %d %s" % (pre, rnd.choice([0, 1, 2, 7, 1024, 2047, -rnd.randint(1, 99999)]), hx(m)))
+                if len(b) > 9000:
+                    # the same stream in every kind of read(): a long report is cut where the reads end
+                    for ch in (0, 1, 2, 3, 7, 1023, 1024, 2047, -1, -2, -3, -4):
+                        cases.add("%s %d %s" % (pre, ch, f["in"]))
             elif kind.startswith("spawn"):
                 k = kind[-1]
                 ops = f["in"].split(".") if f["in"] != "-" else []
@@ -109,6 +118,18 @@ def neighbourhood_cases(dis, seed):
                             continue
                     elif o2[i][0] == "w":
                         o2[i] = o2[i][:3] + mutate_bytes(rnd, bytes.fromhex(o2[i][3:]), b"rhsKZD\x00x\n")[:128].hex()
+                    elif o2[i][0] == "x" and rnd.random() < 0.5:      # death seen in two steps: reaped, EOF on the pipe later
+                        o2[i:i + 1] = ["k" + o2[i][1:]] + (["z" + o2[i][1:3]] if rnd.random() < 0.5 else [])
+                    elif o2[i][0] == "k" and rnd.random() < 0.5:
+                        o2[i] = "x" + o2[i][1:]
+                    r = rnd.random()
+                    if r < 0.25:                                       # end of input anywhere
+                        o2.insert(rnd.randint(0, len(o2)), "e")
+                    elif r < 0.35:
+                        o2 = [o for o in o2 if o != "e"]
+                    elif r < 0.5 and len(o2) > 1:                      # another order
+                        a, b2 = rnd.randrange(len(o2)), rnd.randrange(len(o2))
+                        o2[a], o2[b2] = o2[b2], o2[a]
                     for plan in (f.get("plan", "-"), "-", "03", "04"):
                         cases.add("S %s %s %s" % (k, plan, ".".join(o2)))
         except (KeyError, ValueError):
